@@ -1439,8 +1439,16 @@ func runC04(res *hx.Result, rng *hx.Rng, tier string, outdir string) {
 	cases := hx.NewCases(outdir, "C04cases", "From QV Require Import Call C04Run.", "mismatches cfg_obs rs ts ds", res, "rs", "rcase", "ts", "tcase", "ds", "dcase")
 	cases.Extra = append(cases.Extra, fmt.Sprintf("Definition cfg_obs : cfg := {| noncall_runs := %s; post_answered := %s |}.", hx.Bool(noncall), hx.Bool(postAnswered)))
 
-	if os.Getenv("QV_C04_ONLY") == "features" { // campaigns of part (x) alone
-		h.features(res, rng, cases, tier)
+	if only := os.Getenv("QV_C04_ONLY"); only != "" { // campaigns of part (x), (xi) or (xii) alone
+		switch only {
+		case "features":
+			h.features(res, rng, cases, tier)
+		case "subscriptions":
+			h.collidingSubscriptions(res, rng, cases, tier)
+		case "hosted":
+			h.srv.NewService("c04pad", &c04Child{h.cnt}) // service 4 is the factory's in a full run
+			h.hostedObjects(res, rng, cases, tier)
+		}
 		cases.Flush()
 		res.Notes = append(res.Notes, h.notes...)
 		return
@@ -1515,6 +1523,9 @@ func runC04(res *hx.Result, rng *hx.Rng, tier string, outdir string) {
 	// (x) statistics and traces switched on and off while several connections call the objects
 	h.features(res, rng, cases, tier)
 
+	// (xi) calls mixed with registerEvent / unregisterEvent calls whose user ids collide across connections
+	h.collidingSubscriptions(res, rng, cases, tier)
+
 	// (ii) concurrent callers over 1..3 connections, (iii) crossing replies
 	runs := 20
 	if tier == "thorough" {
@@ -1561,6 +1572,8 @@ func runC04(res *hx.Result, rng *hx.Rng, tier string, outdir string) {
 	h.tearDown(res, rng, cases, tier, outdir)
 	// (ix) calls pipelined to one object whose method adds / removes objects of its own service
 	h.factory(res, rng, cases, tier)
+	// (xii) objects hosted by a client (NewClientObject + Service.Add) called by several callers at once
+	h.hostedObjects(res, rng, cases, tier)
 	cases.Flush()
 	res.Notes = append(res.Notes, h.notes...)
 	res.Notes = append(res.Notes, "goroutine scheduling inside one process cannot be forced between two lock acquisitions: part (ii) is stress with per-call oracles and a trace check; the theorems cover all schedules of the model")
